@@ -27,26 +27,45 @@ def monthLoop : List Int → Int → Int → Int × Int
   | [], mon, rem => (mon, rem)
   | l :: ls, mon, rem => if rem < l then (mon + 1, rem) else monthLoop ls (mon + 1) (rem - l)
 
-/-- humantime's civil-from-days (musl `__secs_to_tm` style), `secs` since 1970 -/
-def civilOfSecs (secs : Nat) : Civil :=
-  let days : Int := (secs / 86400 : Nat) - 11017
+/-- 400-year cycles: `qc_cycles`, `remdays` (with the negative-remainder correction) -/
+def stage400 (days : Int) : Int × Int :=
   let qc0 := Int.tdiv days 146097
   let rem0 := Int.tmod days 146097
-  let (remdays, qc) := if rem0 < 0 then (rem0 + 146097, qc0 - 1) else (rem0, qc0)
-  let c0 := Int.tdiv remdays 36524
+  if rem0 < 0 then (qc0 - 1, rem0 + 146097) else (qc0, rem0)
+
+/-- centuries within the cycle: `c_cycles` (capped at 3), remaining days -/
+def stage100 (rem : Int) : Int × Int :=
+  let c0 := Int.tdiv rem 36524
   let c := if c0 = 4 then c0 - 1 else c0
-  let remdays := remdays - c * 36524
-  let q0 := Int.tdiv remdays 1461
+  (c, rem - c * 36524)
+
+/-- 4-year cycles within the century: `q_cycles` (capped at 24), remaining days -/
+def stage4 (rem : Int) : Int × Int :=
+  let q0 := Int.tdiv rem 1461
   let q := if q0 = 25 then q0 - 1 else q0
-  let remdays := remdays - q * 1461
-  let y0 := Int.tdiv remdays 365
+  (q, rem - q * 1461)
+
+/-- years within the 4-year cycle: `remyears` (capped at 3), remaining days -/
+def stage1 (rem : Int) : Int × Int :=
+  let y0 := Int.tdiv rem 365
   let y := if y0 = 4 then y0 - 1 else y0
-  let remdays := remdays - y * 365
+  (y, rem - y * 365)
+
+/-- humantime's civil-from-days (musl `__secs_to_tm` style) for day number `dayNo` since 1970-01-01 -/
+def civilOfDayNo (dayNo : Nat) : Civil :=
+  let days : Int := (dayNo : Int) - 11017        -- LEAPOCH: 2000-03-01
+  let (qc, r0) := stage400 days
+  let (c, r1) := stage100 r0
+  let (q, r2) := stage4 r1
+  let (y, r3) := stage1 r2
   let year := 2000 + y + 4 * q + 100 * c + 400 * qc
-  let (mon, remdays) := monthLoop monthLens 0 remdays
+  let (mon, remdays) := monthLoop monthLens 0 r3
   let mday := remdays + 1
   if mon + 2 > 12 then { year := year + 1, mon := mon - 10, mday := mday }
   else { year := year, mon := mon + 2, mday := mday }
+
+/-- `secs` since 1970 -/
+def civilOfSecs (secs : Nat) : Civil := civilOfDayNo (secs / 86400)
 
 def dig (n : Int) : UInt8 := UInt8.ofNat (48 + n.toNat)
 def digN (n : Nat) : UInt8 := UInt8.ofNat (48 + n)
